@@ -71,11 +71,12 @@ extern size_t mpt_queue_prepare(MPT_STRUCT(queue) *queue, size_t len)
 	size_t left;
 	
 	if (len > (left = queue->max - queue->len)) {
-		if ((SIZE_MAX-left) < len) {
+		len -= left;
+		if ((SIZE_MAX - sizeof(void *) - queue->max) < len) {
 			errno = EOVERFLOW;
 			return 0;
 		}
-		len = (len - left) + queue->max;
+		len += queue->max;
 		
 		if (!mpt_queue_resize(queue, MPT_align(len))) {
 			return 0;
